@@ -31,7 +31,11 @@ RULE = ("messages = stdlib-generated MIME trees (11 shapes: plain/html/alternati
         "40% of the subjects and 20% of the display names have interior runs of blanks, tabs and Unicode spaces (U+00A0, "
         "U+3000, U+2003, U+0085 ...) literally, in quoted-strings and inside encoded words; single-byte codecs: all 256 byte "
         "values through decode_header_value and get_body_content against the codec table; mboxes of 0..5 such messages, LF/CRLF, mboxrd-quoted From_ lines, "
-        "0..2 blank lines between messages; Date headers: 45% of the messages carry a generated Date header — zone -0000 (30%), "
+        "0..2 blank lines between messages; inside a mailbox 15% of the messages have NO Message-ID header, 12% carry the Message-ID of an "
+        "earlier different message, 8% are an exact second copy of an earlier message; attachments are also declared by a bare "
+        "Content-Disposition (no file name), by Content-Type name= only, with an upper-case disposition, and may precede the body parts "
+        "(incl. a nameless text/plain|html attachment before the real body); read_mbox_format_mail as a whole against map parse over the "
+        "model's split, each mailbox read twice; Date headers: 45% of the messages carry a generated Date header — zone -0000 (30%), "
         "+0000, RFC 5322 zone names, offsets with odd minutes up to +-23:59; optional/obsolete forms (no day name, no seconds, "
         "one-digit day, two-digit year, comment, extra white space, folded) — and inside an mbox 40% of them repeat the local time "
         "of an earlier message under another zone; the Date pipeline is also driven directly (canonical headers with arbitrary "
@@ -128,8 +132,13 @@ def check_content(e, t, kind="eml"):
     cmp("message_id", e.metadata.message_id, t["message_id"])
     cmp("body_plain", e.body_plain, t["plain"].strip())
     cmp("body_html", e.body_html.strip(), t["html"].strip())
-    cmp("attachments", [(a.filename, a.mime_type, a.data.getvalue()) for a in e.attachments],
-        [tuple(x) for x in t["attachments"]])
+    # an attachment declared WITHOUT a file name (truth name "") is still an attachment with its type and exact bytes;
+    # the name the extractor invents for it is not compared
+    got_atts = [(a.filename, a.mime_type, a.data.getvalue()) for a in e.attachments]
+    want_atts = [tuple(x) for x in t["attachments"]]
+    if len(got_atts) == len(want_atts):
+        want_atts = [(g[0] if not w[0] else w[0], w[1], w[2]) for g, w in zip(got_atts, want_atts)]
+    cmp("attachments", got_atts, want_atts)
     if not any(b[0] == "attachments" for b in bad):
         d = _check_supported_attachments(e, t)
         if d:
@@ -155,9 +164,9 @@ def _standalone(name, mime, data):
 def _check_supported_attachments(e, t):
     from sharepoint2text.parsing.mime_types import MIME_TYPE_MAPPING
     want = []
-    for name, mime, data in t["attachments"]:
+    for (name, mime, data), a in zip(t["attachments"], e.attachments):
         if mime in MIME_TYPE_MAPPING:
-            want += _standalone(name, mime, data)
+            want += _standalone(name or a.filename, mime, data)     # no declared name: the file under the name it got
     try:
         got = [(type(r).__name__, r.get_full_text()) for r in e.iterate_supported_attachments()]
     except Exception as exc:
@@ -907,6 +916,58 @@ def _corr_date(ctx, broken):
                                      case={"kind": "date", "hdr": hdr}))
 
 
+def _content_key(e):
+    """every field of an EmailContent the statement names, as comparable data"""
+    pr = lambda l: [(a.name, a.address) for a in l]  # noqa: E731
+    return {"subject": e.subject, "from": (e.from_email.name, e.from_email.address), "to": pr(e.to_emails), "cc": pr(e.to_cc),
+            "bcc": pr(e.to_bcc), "reply_to": pr(e.reply_to), "date": e.metadata.date, "message_id": e.metadata.message_id,
+            "plain": e.body_plain, "html": e.body_html,
+            "atts": [(a.filename, a.mime_type, a.data.getvalue(), bool(a.is_supported_mime_type)) for a in e.attachments]}
+
+
+def _corr_reader(ctx, mboxes, broken):
+    """read_mbox_format_mail as a whole against the model: the i-th result is parse_email_message of the i-th message of
+    the MODEL's split (Lean `splitMbox`, through the driver) — the reader is `map parse ∘ split` (C16_mbox_reader_count),
+    nothing skipped, repeated, reordered, merged or carried over from an earlier message of the same mailbox or an
+    earlier call (each mailbox is read twice, the second time after the others)."""
+    M, _ = _lib()
+    reqs = [{"op": "c16.split", "data": _l1(d)} for d in mboxes]
+    outs = ctx.drive(reqs)
+    bad = 0
+    second = []
+    for d, o in zip(mboxes, outs):
+        if "drv_error" in o:
+            broken.append(Broken("correspondence", "driver", o["drv_error"], case={"data": _l1(d)}))
+            continue
+        msgs = [_txt(m).encode("latin-1") for m in o["msgs"]]
+        ctx.case(("reader", d), nontrivial=len(msgs) > 1)
+        ctx.count("reader/msgs=%d" % min(len(msgs), 5))
+        try:
+            got = [_content_key(e) for e in M.read_mbox_format_mail(io.BytesIO(d))]
+            want = [_content_key(M.parse_email_message(email.message_from_bytes(m))) for m in msgs]
+        except Exception as exc:
+            ctx.count("reader/raised:" + type(exc).__name__)
+            continue
+        second.append((d, got))
+        if got != want:
+            bad += 1
+            if bad <= 4:
+                i = next((k for k, (a, b) in enumerate(zip(got, want)) if a != b), min(len(got), len(want)))
+                broken.append(Broken("correspondence", "c16.reader", f"read_mbox_format_mail yields {len(got)} results, the model's split has {len(msgs)} "
+                                     f"messages; first difference at message {i}: impl={got[i] if i < len(got) else None!r:.300} "
+                                     f"parse(split[i])={want[i] if i < len(want) else None!r:.300}", case={"kind": "mbox-raw", "data": _l1(d)}))
+    for d, got in second[:: max(1, len(second) // 40)]:       # a second reading, after all the others, gives the same
+        try:
+            again = [_content_key(e) for e in M.read_mbox_format_mail(io.BytesIO(d))]
+        except Exception as exc:
+            again = repr(exc)
+        if again != got:
+            broken.append(Broken("correspondence", "c16.reader", "a second read_mbox_format_mail of the same bytes, later in the same process, gives another result",
+                                 case={"kind": "mbox-raw", "data": _l1(d)}))
+            break
+    return bad
+
+
 # ============================================================================= run.py interface
 def _streams(ctx, n_msg, n_mbox):
     rng = ctx.rng
@@ -938,8 +999,10 @@ def _streams(ctx, n_msg, n_mbox):
             if rng.random() < 0.45:
                 data, pos = _redate(rng, data, t, pos, same_as=prev if rng.random() < 0.4 else None)
                 prev = t.get("date_iso")
-            else:
-                pos = max(pos, data.find(b"Message-ID: " + t["message_id"].encode("ascii", "replace"), pos))
+            else:       # step over this message's own Date header (a Message-ID may be absent or shared in a mailbox)
+                own = b"Date: " + email.utils.format_datetime(dt.datetime.fromisoformat(t["when"])).encode("ascii")
+                i = data.find(own, pos)
+                pos = i + len(own) if i >= 0 else pos
         redated.append((crlf, data, truths))
     return singles, redated
 
@@ -974,6 +1037,8 @@ def correspondence(ctx):
     for _ in range(ctx.n(500, 12000)):
         datas.append(("line-soup", _line_soup(rng, rng.randint(0, 9))))
     _corr_split(ctx, datas, broken)
+    # 1b. the reader as a whole = map parse over the model's split
+    _corr_reader(ctx, [d for _, d, _ in mboxes if len(d) < 200000][: ctx.n(200, 3000)], broken)
     # 2. MIME walk: bodies + attachments of the mbox extractor on the stdlib-parsed tree
     plain_singles = [(raw, t) for raw, t in singles if t["notes"]["shape"] != "repertoire"]
     raws = [("generated", raw) for raw, _ in plain_singles]
